@@ -133,6 +133,8 @@ class StateSnapshot:
                     continue
                 if isinstance(v, (dict, list, set)):
                     self.items.append((mod, k, copy.copy(v)))
+                elif v is None or isinstance(v, (bool, int, float, str, tuple, frozenset)):
+                    self.items.append((mod, k, v))          # module-level scalar state (flags, remembered settings): rebinding the baseline value is harmless
                 elif isinstance(v, type) and getattr(v, "__module__", "") == name:
                     for ck, cv in list(vars(v).items()):
                         if ck.startswith("__"):
@@ -168,3 +170,8 @@ class StateSnapshot:
             for k, v in list(vars(mod).items()):
                 if not k.startswith("__") and isinstance(v, (dict, list, set)) and (id(mod), k) not in known:
                     v.clear()
+                elif callable(getattr(v, "cache_clear", None)):
+                    try:
+                        v.cache_clear()                     # functools.lru_cache / cache on a module-level function
+                    except Exception:
+                        pass
